@@ -517,12 +517,19 @@ def align_variable_names_with_convention(
     declared_names = {
         name for node in core.walk(ast_tree, (ast.Global, ast.Nonlocal)) for name in node.names
     }
+    # A name that is bound in several ways (e.g. by a def and by an assignment) is still one
+    # variable: if its bindings call for different new names, it keeps the name it has.
+    name_substitutes = collections.defaultdict(set)
+    for node, substitutes in renamings.items():
+        name = getattr(node, "id", getattr(node, "name", None))
+        name_substitutes[name].update(substitutes - {name})
     renamings = {
         node: list(substitutes)[0]
         for node, substitutes in renamings.items()
         if len(substitutes) == 1
         and blacklisted_names.isdisjoint(substitutes)
         and getattr(node, "id", getattr(node, "name", None)) not in declared_names
+        and len(name_substitutes[getattr(node, "id", getattr(node, "name", None))]) <= 1
     }
     substitute_node_renamings = collections.defaultdict(set)
     for node, substitute in renamings.items():
